@@ -527,7 +527,8 @@ impl ZipOffsetBlobStore {
         let (start_offset, end_offset) = self.offsets.get2(id as usize)?;
         let mut record_len = (end_offset - start_offset) as usize;
         
-        if start_offset >= self.content.len() as u64 || end_offset > self.content.len() as u64 {
+        // an empty record at the very end starts at content.len()
+        if start_offset > end_offset || end_offset > self.content.len() as u64 {
             return Err(ZiporaError::invalid_data("offset out of bounds"));
         }
 
